@@ -559,6 +559,7 @@ def run(ctx: RuleContext, p: Program) -> None:
     from . import descsem as _ds
     ctx.try_rule(_ds.rule_desc_sem, p, 'DESC-SEM')
     ctx.try_rule(_ds.rule_field_sem, p, 'FIELD-SEM')
+    ctx.try_rule(_ds.rule_rep_edge, p, 'REP-EDGE')
     ctx.not_decided += ['nesting / non-overlap of child spans (runtime)', 'single ownership of every significant token (runtime)',
                         'that every tree leaf is currently in the store (runtime)']
     ctx.assumptions += ['reattach(store) re-binds a whole subtree (COVER-REATTACH)', 'tokens need no reattach (their store is their handle)']
